@@ -96,6 +96,11 @@ class LoopStatement:
     """
 
     def __init__(self, iterations, statements=None):
+        if isinstance(iterations, float):
+            # e.g. the value of a let constant
+            if iterations != int(iterations):
+                raise JaqalError(f"Loop count {iterations} is not an integer.")
+            iterations = int(iterations)
         self._iterations = iterations
         if statements is None:
             self._statements = BlockStatement()
